@@ -78,7 +78,8 @@ class Module:
                         mod = n.module or ""
                         self.imports[local] = (("." * n.level) + mod, a.name)
                     else:
-                        self.imports[local] = (a.name, None)
+                        # `import a.b` binds the name `a` (the package); `import a.b as c` binds c to a.b
+                        self.imports[local] = (a.name if a.asname else local, None)
             elif isinstance(n, ast.Assign) and cls is None:
                 for t in n.targets:
                     if isinstance(t, ast.Name):
